@@ -28,7 +28,7 @@ class MixDriver:
     admissible commands, with a configurable rate of deliberately inadmissible ones."""
 
     def __init__(self, rng, steps=60, p_assign=0.5, p_suspend=0.5, p_bad=0.02, bad_kinds=None,
-                 oversize=0.0, integer_sizes=True, p_unready=0.1):
+                 oversize=0.0, integer_sizes=True, p_unready=0.1, p_exact_ram=0.1):
         self.rng = rng
         self.steps = steps
         self.p_assign = p_assign
@@ -39,6 +39,7 @@ class MixDriver:
         self.oversize = oversize
         self.integer_sizes = integer_sizes
         self.p_unready = p_unready
+        self.p_exact_ram = p_exact_ram
 
     def assignable_groups(self, w):
         """Groups of operators that can go into one container now: for each pipeline the
@@ -55,9 +56,9 @@ class MixDriver:
     def pick_ops(self, w, pi, keys, ready):
         rng = self.rng
         if not w.multi:
-            if ready and rng.random() > self.p_unready:
-                return [rng.choice(ready)]
-            return [rng.choice(keys)]
+            if rng.random() < self.p_unready:
+                return [rng.choice(keys)]
+            return [rng.choice(ready)] if ready else None
         # multi mode: a dependency-closed prefix in insertion order (what shipped schedulers do),
         # or, rarely, an arbitrary subset (may violate dependencies -> must be rejected when it starts)
         if rng.random() < self.p_unready:
@@ -72,7 +73,7 @@ class MixDriver:
                 chosen.append(key)
                 done.add(key)
         if not chosen:
-            return [rng.choice(keys)]
+            return None
         k = rng.randint(1, len(chosen))
         return chosen[:k]
 
@@ -135,6 +136,8 @@ class MixDriver:
                 pi, keys, ready = cand[0]
                 used.add(pi)
                 ops = self.pick_ops(w, pi, keys, ready)
+                if not ops:
+                    continue
                 fc = rng.choice([0.1, 0.25, 0.5, 1.0])
                 fr = rng.choice([0.1, 0.25, 0.5, 1.0])
                 cpu = max(1, int(budget_c * fc)) if budget_c >= 1 else budget_c
@@ -144,6 +147,11 @@ class MixDriver:
                     ram = budget_r * fr
                 if w.overcommit and rng.random() < 0.5:
                     ram = w.ram * rng.choice([0.5, 1.0, 1.0, 2.0])
+                if rng.random() < self.p_exact_ram:
+                    # allocation exactly equal to the peak of the chosen operators (limit boundary, no rounding)
+                    peak = max((gen.seg_peak(sg) for (pi_, oi_) in ops for sg in w.specs[pi_]["ops"][oi_]["segs"]), default=0)
+                    if 0 < peak <= (budget_r if not w.overcommit else peak):
+                        ram = peak
                 if ram <= 0 or cpu <= 0:
                     break
                 step["asg"].append({"pool": k, "cpu": cpu, "ram": ram, "ops": [list(x) for x in ops]})
